@@ -70,7 +70,7 @@ func zTwin(steps []zStep) []zStep {
 	out := append([]zStep{}, steps...)
 	for i := range out {
 		if out[i].Kind == "field" || out[i].Kind == "method" {
-			if out[i].Name == "absentKey" {
+			if out[i].Name == "absentKey" || out[i].Name == "" {
 				continue
 			}
 			if out[i].Spell == "dot" {
